@@ -315,6 +315,40 @@ fn read_archive(path: &std::path::Path, inp: &Value, stored: Vec<Value>) -> Valu
            "get_instances": insts, "get_solutions": sols})
 }
 
+/// the bytes are stored as an artifact layer of the matching media type (exactly as another producer's bytes arrive) and
+/// read back through the typed getter; the message the getter returns is re-encoded, as `wire_decode` does
+fn wire_decode_via_artifact(ty: &str, bytes: &[u8], dir: &str) -> Value {
+    static N: std::sync::atomic::AtomicU64 = std::sync::atomic::AtomicU64::new(0);
+    let dir = std::env::current_dir().expect("cwd").join(dir);
+    std::fs::create_dir_all(&dir).ok();
+    let path = dir.join(format!("wire-{}-{}.ommx", std::process::id(), N.fetch_add(1, std::sync::atomic::Ordering::SeqCst)));
+    let _ = std::fs::remove_file(&path);
+    let t = ty.replace('_', "").to_lowercase();
+    let media = match t.as_str() {
+        "instance" => media_types::v1_instance(),
+        "parametricinstance" => media_types::v1_parametric_instance(),
+        "state" => media_types::v1_solution(),
+        "sampleset" => media_types::v1_sample_set(),
+        _ => return json!({"tag":"unknown_type"}),
+    };
+    let r: anyhow::Result<Value> = (|| {
+        let mut b = Builder::new_archive_unnamed(path.clone())?;
+        let desc = b.add_layer(media, bytes, HashMap::new())?;
+        b.build()?;
+        let digest = ommx::ocipkg::Digest::new(desc.digest())?;
+        let mut a = Artifact::from_oci_archive(&path)?;
+        let out = match t.as_str() {
+            "instance" => a.get_instance(&digest)?.0.encode_to_vec(),
+            "parametricinstance" => a.get_parametric_instance(&digest)?.0.encode_to_vec(),
+            "state" => a.get_solution(&digest)?.0.encode_to_vec(),
+            _ => a.get_sample_set(&digest)?.0.encode_to_vec(),
+        };
+        Ok(json!({"tag":"ok","bytes":out,"stable":true,"debug_len":0}))
+    })();
+    let _ = std::fs::remove_file(&path);
+    r.unwrap_or_else(|e| json!({"tag":"err","msg":format!("{e:#}")}))
+}
+
 fn foreign_archive(inp: &Value) -> Value {
     use ommx::ocipkg::image::{OciArchiveBuilder, OciArtifactBuilder};
     use ommx::ocipkg::oci_spec::image::MediaType;
@@ -420,7 +454,14 @@ pub fn apply_one(ev: &Value) -> Vec<Value> {
             i2["keep"] = json!(true);
             read_archive(std::path::Path::new(inp["path"].as_str().unwrap()), &i2, vec![])
         }),
-        "wire_decode" => guarded(|| wire_decode(inp["type"].as_str().unwrap(), &bytes_from(&inp["bytes"]))),
+        "wire_decode" => guarded(|| {
+            let (ty, bytes) = (inp["type"].as_str().unwrap(), bytes_from(&inp["bytes"]));
+            if inp.get("via").and_then(|v| v.as_str()) == Some("artifact") {
+                wire_decode_via_artifact(ty, &bytes, inp["dir"].as_str().unwrap_or("work/C07/arch"))
+            } else {
+                wire_decode(ty, &bytes)
+            }
+        }),
         "wire_redecode" => guarded(|| wire_equal(inp["type"].as_str().unwrap(), &bytes_from(&inp["a"]), &bytes_from(&inp["b"]))),
         "wire_encode" => guarded(|| {
             // encode a message given as a JSON shape with the SDK's encoder
